@@ -285,7 +285,8 @@ def _ase_clause(tier):
     order = []
     for n in ast.walk(fn):
         if isinstance(n, ast.Call) and isinstance(n.func, ast.Name) and n.func.id in ("MaxwellBoltzmannDistribution", "Stationary"):
-            order.append((n.lineno, n.func.id, [k.arg for k in n.keywords]))
+            from props.C07 import _is_job_stream
+            order.append((n.lineno, n.func.id, [k.arg for k in n.keywords if k.arg != "rng" or _is_job_stream(k.value)]))  # rng= counts only if it is self.rgen
         if isinstance(n, ast.Assign) and any(isinstance(t, ast.Name) and t.id == "kin_new" for t in n.targets):
             order.append((n.lineno, "kin_new", []))
     order.sort()
